@@ -287,7 +287,13 @@ def run(ctx, rep):
                 if lits:
                     out_.add((nm, lits))
         return out_
-    ev_a = ext_tests(va) if va in f.fns else None
+    ev_a = None
+    if va in f.fns:
+        # validate_args and the helpers of the configuration module it reaches (the path checks may live in a helper)
+        ev_a = set()
+        for p_ in sorted(ctx.cg().reachable([va])):
+            if p_ == va or p_.startswith("fastpasta::config::"):
+                ev_a |= ext_tests(p_) or set()
     ev_b = None
     if cr in f.fns:
         # run() and the helpers of its module it reaches (the dispatch may live in an extracted helper)
@@ -314,10 +320,21 @@ def run(ctx, rep):
             if "as fastpasta::config::util::UtilOpt>" in path:
                 continue  # forwarding impls
             callers.add(path)
+        # a private helper extracted from an allowed reader (same module, called from nowhere else) reads it on the reader's behalf
+        def _covered(q, depth=0):
+            if q in allowed:
+                return True
+            if depth > 3:
+                return False
+            cs_ = {path for path, bb, t, cal, c in cg.call_sites(lambda c, q=q: c == q, within=reach)}
+            mod_ = lambda x: x.replace("<", "").split("::")[:-1][:4]
+            return bool(cs_) and all(mod_(x)[:3] == mod_(q)[:3] and _covered(x, depth + 1) for x in cs_)
+        all_readers = set(callers)
+        callers = {q for q in callers if q in allowed or not _covered(q)}
         rep.check(callers <= allowed and callers, "R16.4", "R16.4|readers|%s" % opt, "%s() is read only by %s" % (opt, sorted(x.split("::")[-1] for x in callers)), "config",
                   "%s() is now also read in %s — a display option must not influence what is detected or counted" % (opt, sorted(callers - allowed)))
         # in functions that read the option and emit an Error, the emission is reached on both outcomes
-        for p in callers:
+        for p in sorted(all_readers):
             b = cg.body(p)
             errs = [i for i, j, s in b.stmts() if s["k"] == "assign" and s["rv"]["k"] == "agg" and (s["rv"].get("adt") or "").endswith("stats::StatType") and s["rv"].get("vname") == "Error"]
             if not errs:
